@@ -141,23 +141,26 @@ def runC31 (arg : String) : String :=
 
 /-! ## c29 -/
 open RoutinatorModel.Collector in
-/-- `c29 <never|stale|new> <rrdp 0/1> <rsync 0/1> <notify 0/1> <updated|current|stale|unavailable>` -/
+/-- `c29 <never|stale|new> <rrdp 0/1> <rsync 0/1> <notify 0/1> <update ok 0/1> <stored best-before|->
+<now> <refresh> <rrdp-fallback-time>`: the outcome is classified by the model from what is stored
+and the clock, then the transport is decided. -/
 def runC29 (arg : String) : String :=
   let bool? : String → Option Bool := fun w => if w == "1" then some true else if w == "0" then some false else none
   match words arg with
-  | [p, re, rs, hn, o] =>
+  | [p, re, rs, hn, ok, bb, now, refresh, fallback] =>
     let p? : Option Policy := match p with
       | "never" => some .never | "stale" => some .stale | "new" => some .new | _ => none
-    let o? : Option Outcome := match o with
-      | "updated" => some .updated | "current" => some .current | "stale" => some .stale
-      | "unavailable" => some .unavailable | _ => none
-    match p?, bool? re, bool? rs, bool? hn, o? with
-    | some p, some re, some rs, some hn, some out =>
+    let bb? : Option (Option Nat) := if bb == "-" then some none else bb.toNat?.map some
+    match p?, bool? re, bool? rs, bool? hn, bool? ok, bb?, now.toNat?, refresh.toNat?, fallback.toNat? with
+    | some p, some re, some rs, some hn, some ok, some bb, some now, some refresh, some fallback =>
+      let out := tryUpdateOutcome ⟨refresh, fallback⟩ ok bb now
       let t := match repository p re rs hn out with
         | .rrdp => "rrdp" | .rsync => "rsync" | .none => "none"
+      let o := match out with
+        | .updated => "updated" | .current => "current" | .stale => "stale" | .unavailable => "unavailable"
       let asks := asksRrdp re hn
       s!"transport={t} asks={showBool asks} outcome={if asks then o else "-"}"
-    | _, _, _, _, _ => "bad-op"
+    | _, _, _, _, _, _, _, _, _ => "bad-op"
   | _ => "bad-op"
 
 /-! ## c38 -/
